@@ -29,8 +29,61 @@ func checkC17(r *core.Run) {
 	c17Notify(r, p)
 	c17Lock(r, p)
 	c17Sym(r, p)
-	c17OutLists(r, p)
+	c17OutLists(r, p, "R-C17-sym")
 	c17MinValueFirst(r, p)
+	c17RemoveFound(r, p)
+}
+
+// c17RemoveFound: when an output leaves the set, the entry removed from the address's list is the one that
+// was looked up: the cut rec.unsp[:i] + rec.unsp[i+1:] uses the position returned by the search for exactly
+// this (txid, vout), and only after the "not found" outcome was excluded. (A position variable that is never
+// assigned - e.g. shadowed in the if statement - stays 0 and removes the first entry instead.)
+func c17RemoveFound(r *core.Run, p *core.Program) {
+	const rule = "R-C17-sym"
+	fn := p.Func("client/wallet.all_del_utxos")
+	if fn == nil {
+		r.Fail(rule, "remove-the-entry-found", "-", "all_del_utxos not found")
+		return
+	}
+	n := 0
+	var bad []string
+	for _, c := range an.CallsTo(fn, false, "builtin.append") {
+		a := c.Common().Args
+		if len(a) != 2 {
+			continue
+		}
+		s0, ok0 := a[0].(*ssa.Slice)
+		s1, ok1 := a[1].(*ssa.Slice)
+		if !ok0 || !ok1 || s0.High == nil || s1.Low == nil || an.Expr(s0.X) != an.Expr(s1.X) {
+			continue
+		}
+		n++
+		pos := s0.High
+		lo, okLo := s1.Low.(*ssa.BinOp)
+		if !okLo || lo.Op != token.ADD || lo.X != pos || an.Expr(lo.Y) != "1" {
+			bad = append(bad, "the cut at "+p.Pos(an.InstrPos(c.(ssa.Instruction)))+" is not [:i] + [i+1:] of one position")
+			continue
+		}
+		found := false
+		for _, leaf := range an.PhiLeaves(pos) {
+			if sc, ok := leaf.(*ssa.Call); ok && (strings.HasSuffix(an.CallName(sc), "slices.Index") || strings.Contains(an.CallName(sc), "slices.Index[")) && an.Expr(sc.Call.Args[0]) == an.Expr(s0.X) {
+				found = true
+			} else {
+				found = false
+				bad = append(bad, "the position used for the cut at "+p.Pos(an.InstrPos(c.(ssa.Instruction)))+" can be "+an.Expr(leaf)+", which is not the result of the search")
+				break
+			}
+		}
+		if found {
+			e := an.Expr(pos)
+			cs := an.DomConds(c.(ssa.Instruction).Block())
+			if !an.HasCond(cs, "("+e+" < 0)", false) {
+				bad = append(bad, "the cut at "+p.Pos(an.InstrPos(c.(ssa.Instruction)))+" is not preceded by the 'not found' test of the position")
+			}
+		}
+	}
+	sort.Strings(bad)
+	r.Check(n >= 1 && len(bad) == 0, rule, "remove-the-entry-found", p.Pos(fn.Pos()), "the list entry removed is the one the search returned", strings.Join(bad, "; "))
 }
 
 // c17MinValueFirst: building the index from the set and maintaining it afterwards must use the same minimum
@@ -82,8 +135,7 @@ func c17MinValueFirst(r *core.Run, p *core.Program) {
 // return a list whose slots are all nil: freshly made, or a reslice of shared storage that is cleared
 // over its whole length (not over a count left from the previous record). The balance index is built
 // from records decoded with the shared-storage allocator.
-func c17OutLists(r *core.Run, p *core.Program) {
-	const rule = "R-C17-sym"
+func c17OutLists(r *core.Run, p *core.Program, rule string) {
 	n := 0
 	var bad []string
 	for _, f := range p.ModuleFuncs() {
